@@ -207,16 +207,16 @@ fn gen(ctx: &GenCtx, i: u64, prop: &str) -> Option<Run> {
             }
             Sym::Exp => {
                 let t = created + r.range(60 * NS, 10 * DAY);
-                rb.push(set(ClaimSpec::Exp(render_canonical(&mut r, t - t.rem_euclid(NS)))));
+                rb.push(set(ClaimSpec::Exp(render_canonical_t(&mut r, t - t.rem_euclid(NS)))));
             }
             Sym::Nbf => {
                 // usually in the past; sometimes beyond the default expiry (a token valid "from tomorrow")
                 let t = if r.chance(1, 4) { created + r.range(HOUR, 3 * DAY) } else { created - r.range(2 * NS, 10 * DAY).min(created - T_1971 + NS) + NS };
-                rb.push(set(ClaimSpec::Nbf(render_canonical(&mut r, t - t.rem_euclid(NS)))));
+                rb.push(set(ClaimSpec::Nbf(render_canonical_t(&mut r, t - t.rem_euclid(NS)))));
             }
             Sym::Iat => {
                 let t = created - r.range(0, DAY).min(created - T_1971);
-                rb.push(set(ClaimSpec::Iat(render_canonical(&mut r, t - t.rem_euclid(NS)))));
+                rb.push(set(ClaimSpec::Iat(render_canonical_t(&mut r, t - t.rem_euclid(NS)))));
             }
             Sym::Iss => {
                 let v = format!("v{}", n);
@@ -237,6 +237,8 @@ fn gen(ctx: &GenCtx, i: u64, prop: &str) -> Option<Run> {
                     6 => json!({"exp": "x", "iat": n}),
                     7 => json!([{"nbf": null}, {"nbf": null}]),
                     8 => json!({"a": {"exp": 1, "b": {"exp": 2}}, "iss": {"iss": "i"}, "jti": "j", "sub": ["sub"], "aud": {"aud": {"aud": 0}}}),
+                    // an object with a member named like the claim itself next to members named like time claims
+                    9 => json!({ key_a.clone(): n, "exp": "2099-01-01T00:00:00Z", "iat": "2001-01-01T00:00:00Z", "nbf": "2001-01-01T00:00:00Z" }),
                     _ => gen_json(&mut r, 2),
                 };
                 rb.push(set(if bare { ClaimSpec::Bare { key: key_a.clone(), value: if value.is_object() { json!(n) } else { value } } } else { ClaimSpec::Custom { key: key_a.clone(), value } }));
